@@ -187,7 +187,9 @@ class ForwardScheduler(IScheduler):
             task: Task,
             max_steps: int = 100000
     ) -> datetime:
-        d = resource.get_nearest_availability_date(start_date, 1)
+        # Days are asked about at their midnight, like in the reservation loop and in the usage report: a calendar
+        # that is valid up to a midnight still offers that day, whatever time of day the search starts at
+        d = resource.get_nearest_availability_date(datetime(start_date.year, start_date.month, start_date.day), 1)
 
         for i in range(0, max_steps):
             reserved = resource_usage.reserved(resource, d) if self.__balance_resources \
@@ -379,7 +381,10 @@ class BackwardScheduler(IScheduler):
             task: Task,
             max_steps: int = 1000
     ) -> datetime:
-        d = resource.get_nearest_availability_date(start_date, -1) - timedelta(days=1)
+        # Days are asked about at their midnight, like in the reservation loop and in the usage report
+        d = resource.get_nearest_availability_date(
+            datetime(start_date.year, start_date.month, start_date.day), -1
+        ) - timedelta(days=1)
 
         for i in range(0, max_steps):
             reserved = resource_usage.reserved(resource, d) if self.__balance_resources \
